@@ -171,14 +171,17 @@ func nilToEmpty(rv reflect.Value, depth int) {
 }
 
 func engineAlias(rep *Report) {
-	subs := subjectsForShard()
+	subs := allSubjects()
 	n := perType(120, 5000)
 	only := onlyIndex()
 	arena := newArena(64)
-	for _, s := range subs {
+	for ti, s := range subs {
 		rep.Types = append(rep.Types, string(s.FullName))
 		d := s.Zero.ProtoReflect().Descriptor()
 		for i := 0; i < n; i++ {
+			if !mineCase(ti, i) {
+				continue
+			}
 			if only >= 0 && i != only {
 				continue
 			}
